@@ -203,14 +203,22 @@ def _tetra(C):
     q, unit = symrot("q")
     inputs = list(vv.ravel()) + list(pos) + list(q.q.ravel())
 
+    handed = {}
+
     def run():
-        return TB.make_Tetrahedron("plotly-dict", vertices=vv.copy(), position=pos.copy(), orientation=q)
+        handed["v"], handed["p"] = vv.copy(), pos.copy()  # the arrays the display code gets (in show(): the object's own _vertices / _position)
+        return TB.make_Tetrahedron("plotly-dict", vertices=handed["v"], position=handed["p"], orientation=q)
 
     def on_path(p):
         C.paths += 1
         if p.status != "ok":
             C.note_inconclusive(f"p{C.paths}", f"aborted: {p.out}")
             return
+        # displaying never modifies the object: the arrays handed to the model builder are term-identical afterwards
+        changed = z3.Or(*[toz(a) != toz(b) for a, b in zip(list(handed["v"].ravel()) + list(handed["p"]), list(vv.ravel()) + list(pos))])
+        C.oblige(f"p{C.paths}.tetrahedron: vertices and position arrays handed to the builder are unchanged", p.pc + unit, changed, inputs=inputs, nice=False,
+                 quat_groups=[list(q.q[0])], key="C19|make_Tetrahedron|modifies-input",
+                 on_model=lambda env: {"key": "C19|make_Tetrahedron|modifies-input", "replay": {"kind": "tetra-unchanged", "env": env}})
         loc = _local(p.out, q, pos)
         # the drawn vertices are exactly the four given vertices (in some order)
         each = z3.And(*[z3.Or(*[z3.And(*[toz(l[c]) == toz(vv[k, c]) for c in range(3)]) for l in loc]) for k in range(4)])
@@ -318,6 +326,24 @@ def replay(spec):
         r = np.hypot(v[:, 0], v[:, 1])
         ok = np.all((np.abs(r - r1) < 1e-9 * r2) | (np.abs(r - r2) < 1e-9 * r2)) and np.allclose(np.abs(v[:, 2]), h / 2) and np.any(np.abs(r - r2) < 1e-9 * r2)
         return not ok, f"cylinder segment ({r1},{r2},{h},{spec['phis']}): radii {sorted(set(np.round(r, 6).tolist()))}"
+    if k == "tetra-unchanged":
+        import warnings
+
+        import matplotlib
+
+        matplotlib.use("Agg")
+        vv = np.array([[g(f"vert_{i}_{c}") for c in range(3)] for i in range(4)])
+        msgs = []
+        for vs in (vv, vv[[0, 1, 3, 2]]):  # both chiralities
+            t = m.magnet.Tetrahedron(polarization=(0, 0, 1), vertices=vs, position=pos, orientation=rot)
+            before = (t.vertices.copy(), t.position.copy(), t.orientation.as_quat().copy())
+            with warnings.catch_warnings():
+                warnings.simplefilter("ignore")
+                m.show(t, backend="plotly", return_fig=True)
+            after = (t.vertices, t.position, t.orientation.as_quat())
+            if not all(np.array_equal(a, b) for a, b in zip(before, after)):
+                msgs.append(f"show() changed Tetrahedron.vertices from {before[0].tolist()} to {after[0].tolist()}")
+        return bool(msgs), "; ".join(msgs[:1]) or "show() left the tetrahedron unchanged"
     if k == "tetra":
         vv = np.array([[g(f"vert_{i}_{c}") for c in range(3)] for i in range(4)])
         loc = rot.apply(V(TB.make_Tetrahedron("plotly-dict", vertices=vv, position=pos, orientation=rot)) - pos, inverse=True)
